@@ -70,6 +70,14 @@ def _cases(prop):
         out += [(_pu().point_in_bounds, ([x, y], [[0, 0], [1, 2]], tol), None)
                 for x in vals for y in (0, 2.5) for tol in (1e-9, 0.5)]
         out += [(_pu().point_in_bounds, ([x, 1], [[0, 0], [1, 2]]), None) for x in vals]
+        # a coordinate outside its bound by 0.85 .. 1.2 tolerances (a tolerance that is rescaled,
+        # rounded or taken in other units moves this verdict and no other)
+        for tol in (0.1, 0.5, 1e-9, 3.0):
+            for hair in (0.85, 0.97, 1.04, 1.2):
+                out += [(_pu().point_in_bounds, ([10 + hair * tol, 4.0], [[0, 0], [10, 8]], tol), None),
+                        (_pu().point_in_bounds, ([5.0, -hair * tol], [[0, 0], [10, 8]], tol), None),
+                        (_pu().checkLimitsTol, (10 + hair * tol, 0, 10, tol), None),
+                        (_pu().checkLimitsTol, (-hair * tol, 0, 10, tol), None)]
         return out
     if prop == "C20":
         from plotink import text_utils
@@ -165,7 +173,18 @@ def _plain(entry, variant):
     if variant == "mixed":
         mine = _mix(mine, [0])
     try:
-        if variant.startswith("decimal:"):
+        if variant.startswith("setting:"):
+            # a public module-level setting of plot_utils changed by an earlier, unrelated step
+            # (the source recommends PX_PER_INCH = 90.0 for documents of Inkscape 0.91 and older)
+            name, factor = variant.split(":")[1:]
+            module = _pu()
+            saved = getattr(module, name)
+            setattr(module, name, saved * float(factor))
+            try:
+                got = call(mine)
+            finally:
+                setattr(module, name, saved)
+        elif variant.startswith("decimal:"):
             from .props.c20 import decimal_setting                      # pylint: disable=import-outside-toplevel
             with decimal_setting(variant.split(":", 1)[1]):
                 got = call(mine)
@@ -271,9 +290,25 @@ def _run_variant(entry, variant, follower=None):
         name = getattr(entry[1] if entry[0] == "pair" else entry[0], "__name__", "call")
         args = entry[2] if entry[0] == "pair" else entry[1]
         what = "points handed over alternately as tuples and as lists" if variant == "mixed" \
-            else f"the caller's decimal context set to {variant.split(':', 1)[1]}"
+            else (f"plot_utils.{variant.split(':')[1]} multiplied by {variant.split(':')[2]} "
+                  f"beforehand" if variant.startswith("setting:")
+                  else f"the caller's decimal context set to {variant.split(':', 1)[1]}")
         return (f"{name}{tuple(args)!r} with {what} gives {other!r}; otherwise {base!r}")[:700]
     return None
+
+
+# properties whose functions have nothing to do with the pixel scale of a document
+_SCALE_FREE = ("C08", "C09", "C10", "C11", "C13", "C14", "C18", "C20")
+
+
+def _variants(prop):
+    if prop not in _SCALE_FREE:
+        return VARIANTS
+    module = _pu()
+    names = [n for n in dir(module) if n.isupper() and not n.startswith("_") and
+             isinstance(getattr(module, n), (int, float)) and
+             not isinstance(getattr(module, n), bool)]
+    return VARIANTS + tuple(f"setting:{n}:{f}" for n in names for f in ("0.9375", "0.75", "1.25"))
 
 
 def explore(prop):
@@ -286,7 +321,7 @@ def explore(prop):
         if msg:
             part.violation(f"callform:{prop}:{number}", msg,
                            {"kind": "callform", "prop": prop, "number": number})
-        for variant in VARIANTS:
+        for variant in _variants(prop):
             msg = _run_variant(entry, variant, follower)
             part.count("call_form_cases")
             if msg:
